@@ -2,7 +2,8 @@
 """tools/seedtable.py — regenerate the seeded-change table of DESIGN.md (between the SEED-TABLE markers) from seeded/*/meta.json."""
 import glob, json, os, re
 ROOT = os.path.dirname(os.path.dirname(os.path.abspath(__file__)))
-rows = ["| seed | breaks | needs (short) | demo clean / patched | pinned tests with patch | check verdict with patch (quick) | first violated obligation |", "|---|---|---|---|---|---|---|"]
+rows = ["| seed | breaks | change (short) | demo clean / patched | pinned tests with patch | first evaluation (checks as they were BEFORE the seed's round was seen) | check verdict now (quick) | first violated obligation |", "|---|---|---|---|---|---|---|---|"]
+first_stats = {}
 n = caught = 0
 for f in sorted(glob.glob(os.path.join(ROOT, "seeded", "C*-*", "meta.json"))):
     m = json.load(open(f))
@@ -20,10 +21,22 @@ for f in sorted(glob.glob(os.path.join(ROOT, "seeded", "C*-*", "meta.json"))):
         if r["first_violations"] and not first:
             first = r["first_violations"][0]
     caught += any_caught
-    rows.append("| %s | %s | %s | %s / %s | %s | %s | `%s` |" % (name, m["property"], re.sub(r"\s+", " ", m["summary"])[:110].replace("|", "/"), c.get("demo_on_clean_tree_rc"), c.get("demo_with_patch_rc"),
-                                                             "pass" if c.get("baseline_307_tests_still_pass_rc") == 0 else "FAIL", "; ".join(ver), first[:70]))
+    fe = m.get("first_evaluation")
+    rnd = 1 if int(name.split("-")[1]) <= 3 else (2 if int(name.split("-")[1]) <= 5 else 3)
+    if fe:
+        fcaught = any(r_["caught"] for r_ in fe.get("checks", {}).values())
+        fs = first_stats.setdefault(rnd, [0, 0])
+        fs[0] += 1
+        fs[1] += fcaught
+        fetxt = "caught" if fcaught else "MISSED"
+    else:
+        fetxt = "(round 1: checks were built alongside)"
+    rows.append("| %s | %s | %s | %s / %s | %s | %s | %s | `%s` |" % (name, m["property"], re.sub(r"\s+", " ", m["summary"])[:110].replace("|", "/"), c.get("demo_on_clean_tree_rc"), c.get("demo_with_patch_rc"),
+                                                             "pass" if c.get("baseline_307_tests_still_pass_rc") == 0 else "FAIL", fetxt, "; ".join(ver), first[:70]))
 rows.append("")
 rows.append("%d of %d re-confirmed seeded changes are caught by the quick tier of at least one check." % (caught, n))
+for rnd, (tot, c_) in sorted(first_stats.items()):
+    rows.append("Round %d first evaluation (checks frozen before the round's seeds were read): %d of %d caught." % (rnd, c_, tot))
 p = os.path.join(ROOT, "DESIGN.md")
 s = open(p).read()
 block = "<!-- SEED-TABLE -->\n" + "\n".join(rows) + "\n<!-- /SEED-TABLE -->"
